@@ -1,6 +1,6 @@
 """C12 - specifications are rejected up front or run to completion.
 
-(a) rejection: ALL subsets of size <= 2 (thorough 3) of a 19-letter alphabet of documented
+(a) rejection: ALL subsets of size <= 2 (thorough 3) of a 20-letter alphabet of documented
     rule violations applied to three base models; each must be rejected with
     ModelInitilizationError / GridInitializationError / ValueError no later than
     get_lcm_function, for all three targets.
@@ -38,7 +38,7 @@ SINGLE_OUTCOME_OK = False
 
 BASES = {"B0h": {"h": "hd"}, "B1h": {"h": "hd", "cc": "none", "wgrid": "disc"}, "B2": {"h": "hd", "filt": "none"}}
 VIOL = [
-    "T0", "Tneg", "no_utility", "no_next", "overlap", "nongrid_state", "nongrid_choice", "noncallable",
+    "T0", "Tneg", "no_utility", "no_next", "no_next_suffix_twin", "overlap", "nongrid_state", "nongrid_choice", "noncallable",
     "stoch_cont_state", "stoch_dep_cont", "stoch_dep_param", "stoch_dep_aux", "filter_param",
     "grid_start_eq_stop", "grid_start_gt_stop", "grid_zero_points", "grid_log_nonpositive", "grid_codes_gap", "grid_not_dataclass",
 ]
@@ -100,6 +100,11 @@ def apply_violations(bname, viol):
             funcs = [f for f in funcs if f != "utility"]
         elif v == "no_next":
             funcs = [f for f in funcs if f != "next_w"]
+        elif v == "no_next_suffix_twin":
+            # state x has no transition, but another transition function's name ends in _x
+            states = states + [("x", "D(2)"), ("lag_x", "D(2)")]
+            src += "\n\ndef next_lag_x(x):\n    return x"
+            funcs = funcs + ["next_lag_x"]
         elif v == "overlap":
             choices = choices + [("s", "D(2)")]
         elif v == "nongrid_state":
